@@ -217,7 +217,7 @@ PROPS["C12"] = {
 PROPS["C13"] = {
     "modules": ["TurnModel.Props.C13", "TurnModel.Props.C13Nums", "TurnModel.Props.C13Locks"], "gen": True,
     "harnesses": ["H5", "H11", "H10"], "view": ["cwrite", "cin", "cread", "cadv", "cclose", "cnet"], "outs": None,
-    "alarms": ["inbound-blocks", "h5-setup", "harness-died", "read-deadline-not-sticky", "data-race", "concurrent-writers-mixed", "h11-setup", "channel-number-reused", "concurrent-first-write-closes-allocation", "accept-deadline-not-sticky", "accept-blocked-after-close", "stream-other-record", "permission-address-aliased"],
+    "alarms": ["granted-permission-forgotten", "write-after-close-emits", "dial-after-close-emits", "inbound-blocks", "h5-setup", "harness-died", "read-deadline-not-sticky", "data-race", "concurrent-writers-mixed", "h11-setup", "channel-number-reused", "concurrent-first-write-closes-allocation", "accept-deadline-not-sticky", "accept-blocked-after-close", "stream-other-record", "permission-address-aliased"],
     "rule": "H5 drives the real turn.Client + UDPConn (Allocate, WriteTo, ReadFrom, SetReadDeadline, Close, HandleInbound, the 30 s bindings timer) against a scripted TURN server on an "
             "in-memory socket under virtual time: every write gets a reaction script for CreatePermission and ChannelBind drawn from {ok, 400, 403, 438, 438x2, 438x3, silence, 438+403, 508}; "
             "inbound Data indications, ChannelData (known/unknown channels, payloads starting with the STUN cookie), requests, undecodable STUN, foreign responses, garbage from the server and "
